@@ -23,7 +23,7 @@ structure Sight (α : Type) where
   vClick : α    -- raw rad
 
 /-- `Sight.__init__` after unit coercion. `fp = none`: a string that is not a focal plane;
-    `scale = none`: argument not given (or falsy); `scale1` is the raw value of
+    `scale = none`: argument not given; `scale1` is the raw value of
     `PreferredUnits.distance(1)` used when no scale factor is supplied;
     `hClick`/`vClick = none`: argument of a wrong type. -/
 def Sight.new (fp : Option FocalPlane) (scale : Option α) (scale1 : α) (hClick vClick : Option α) :
@@ -34,7 +34,8 @@ def Sight.new (fp : Option FocalPlane) (scale : Option α) (scale1 : α) (hClick
     if scale.isNone && fp == .SFP then .error .scaleRequired else
     match hClick, vClick with
     | some h, some v =>
-      if h ≤ 0.0 ∨ v ≤ 0.0 then .error .clickNonPositive
+      if fp == .SFP && decide (scale.getD scale1 ≤ 0.0) then .error .scaleRequired
+      else if h ≤ 0.0 ∨ v ≤ 0.0 then .error .clickNonPositive
       else .ok ⟨fp, scale.getD scale1, h, v⟩
     | _, _ => .error .clickType
 
